@@ -8,10 +8,17 @@ from hypothesis import strategies as st
 
 POL_FIXED = ["I", "X", "Y", "Z", "H", "S", "T", "SX"]
 angle = st.floats(-4 * math.pi, 4 * math.pi, allow_nan=False, allow_infinity=False)
-small_c = st.builds(lambda r, ph: [r * math.cos(ph), r * math.sin(ph)], st.floats(0.05, 1.0), st.floats(-math.pi, math.pi))
+small_c = st.one_of(
+    st.builds(lambda r, ph: [r * math.cos(ph), r * math.sin(ph)], st.floats(0.05, 1.0), st.floats(-math.pi, math.pi)),
+    st.builds(lambda r, ph: [r * math.cos(ph), r * math.sin(ph)], st.floats(0.05, 1.0), st.floats(-math.pi, math.pi)),
+    st.builds(lambda r, ph: [r * math.cos(ph), r * math.sin(ph)], st.floats(0.05, 1.0), st.floats(-math.pi, math.pi)),
+    # exactly on the axes (sign functions, branch cuts)
+    st.builds(lambda x, sg: [sg * x, 0.0], st.floats(0.05, 1.0), st.sampled_from([-1.0, 1.0])),
+    st.builds(lambda y, sg: [0.0, sg * y], st.floats(0.05, 1.0), st.sampled_from([-1.0, 1.0])),
+)
 seeds = st.integers(0, 10**6)
 
-STATE_CLASSES = ["basis", "product", "pure", "pure", "mixed", "mixed", "cancel", "lowphoton"]
+STATE_CLASSES = ["basis", "product", "pure", "pure", "mixed", "mixed", "cancel", "lowphoton", "nearlypure"]
 
 
 class Info:
